@@ -14,6 +14,11 @@ func newNode(astNode schema.ASTNode) Node {
 	if astNode.SchemaType == internal.StringAny {
 		return newAny(astNode)
 	}
+	if astNode.TokenType == "" && astNode.SchemaType == "" {
+		// The schema without an example (empty, or contains only comments):
+		// any value is allowed.
+		return newAny(astNode)
+	}
 
 	switch astNode.TokenType {
 	case schema.TokenTypeNumber, schema.TokenTypeString, schema.TokenTypeBoolean:
